@@ -2137,3 +2137,232 @@ def desugar_after_inlining(trees: Dict[str, ast.Module]) -> int:
         _GetattrLiteral().visit(tree)
         ast.fix_missing_locations(tree)
     return n
+
+
+# --------------------------------------------------------------------------------------------------------------- copies
+def _stmt_preorder(stmts: List[ast.stmt], out: List[ast.stmt], loops: Dict[int, bool], in_loop: bool = False):
+    for st in stmts:
+        out.append(st)
+        loops[id(st)] = in_loop
+        if isinstance(st, (ast.FunctionDef, ast.AsyncFunctionDef, ast.ClassDef)):
+            continue
+        inner = in_loop or isinstance(st, (ast.For, ast.While, ast.AsyncFor))
+        guarded = inner or isinstance(st, ast.Try)
+        for fld in ("body", "orelse", "finalbody"):
+            sub = getattr(st, fld, None)
+            if isinstance(sub, list) and sub and isinstance(sub[0], ast.stmt):
+                _stmt_preorder(sub, out, loops, guarded)
+        for h in getattr(st, "handlers", []) or []:
+            _stmt_preorder(h.body, out, loops, guarded)
+        for c in getattr(st, "cases", []) or []:
+            _stmt_preorder(c.body, out, loops, guarded)
+
+
+def _owner_index(fn: ast.AST):
+    """Name node -> preorder index of the innermost statement holding it; plus the statement list and the loop/try flags."""
+    order: List[ast.stmt] = []
+    loops: Dict[int, bool] = {}
+    _stmt_preorder(fn.body, order, loops)
+    pos = {id(s): i for i, s in enumerate(order)}
+    names: List[Tuple[ast.Name, int]] = []
+
+    def visit(node, cur):
+        if isinstance(node, ast.stmt) and id(node) in pos:
+            cur = pos[id(node)]
+        if isinstance(node, ast.Name):
+            names.append((node, cur))
+        for ch in ast.iter_child_nodes(node):
+            visit(ch, cur)
+    for st in fn.body:
+        visit(st, -1)
+    return order, loops, names
+
+
+def _blocks_of(fn: ast.AST):
+    for node in ast.walk(fn):
+        for fld in ("body", "orelse", "finalbody"):
+            sub = getattr(node, fld, None)
+            if isinstance(sub, list) and sub and isinstance(sub[0], ast.stmt):
+                yield sub
+
+
+def _copy_once(fn: ast.AST, pinned: Set[str]) -> bool:
+    order, guarded, names = _owner_index(fn)
+    pos = {id(s): i for i, s in enumerate(order)}
+    stores: Dict[str, List[int]] = {}
+    for n, i in names:
+        if isinstance(n.ctx, (ast.Store, ast.Del)):
+            stores.setdefault(n.id, []).append(i)
+    args = {a.arg for x in ast.walk(fn) if isinstance(x, ast.arguments) for a in x.args + x.kwonlyargs + x.posonlyargs + ([x.vararg] if x.vararg else []) + ([x.kwarg] if x.kwarg else [])}
+    scoped = {nm for x in ast.walk(fn) if isinstance(x, (ast.Global, ast.Nonlocal)) for nm in x.names}
+    for block in _blocks_of(fn):
+        for bi, st in enumerate(block):
+            if not (isinstance(st, ast.Assign) and len(st.targets) == 1 and isinstance(st.targets[0], ast.Name) and isinstance(st.value, ast.Name)):
+                continue
+            x, y = st.targets[0].id, st.value.id
+            if x == y or x in pinned or x in args or x in scoped or y in scoped or id(st) not in pos or guarded.get(id(st), True):
+                continue
+            i1 = pos[id(st)]
+            # (1) x is bound once, y is not bound afterwards: x is y
+            if stores.get(x) == [i1] and not any(i > i1 for i in stores.get(y, [])):
+                for n, _i in names:
+                    if n.id == x and isinstance(n.ctx, ast.Load):
+                        n.id = y
+                block.pop(bi)
+                return True
+            # (3) handled in _takeover_once
+            # (2) x = y ... y = x with y untouched in between and x unknown elsewhere: x is y all along
+            if min(stores.get(x, [i1])) != i1:
+                continue
+            for bj in range(bi + 1, len(block)):
+                s2 = block[bj]
+                if isinstance(s2, ast.Assign) and len(s2.targets) == 1 and isinstance(s2.targets[0], ast.Name) and s2.targets[0].id == y \
+                        and isinstance(s2.value, ast.Name) and s2.value.id == x:
+                    i2 = pos[id(s2)]
+                    between_y = any(n.id == y and i1 < i < i2 for n, i in names)
+                    outside_x = any(n.id == x and not (i1 <= i <= i2) for n, i in names)
+                    if between_y or outside_x:
+                        break
+                    for n, _i in names:
+                        if n.id == x:
+                            n.id = y
+                    block.pop(bj)
+                    block.pop(bi)
+                    return True
+    return False
+
+
+def _takeover_once(fn: ast.AST, pinned: Set[str]) -> bool:
+    """`x = y` where y is never read again before it is bound anew: the new local x takes over y's name (what inlining a helper that
+    rebinds its parameter leaves behind).  Inside a loop body the statement must be a direct statement of the body and y must be bound
+    afresh, unconditionally, before its first read in the body."""
+    order, guarded, names = _owner_index(fn)
+    pos = {id(s): i for i, s in enumerate(order)}
+    args = {a.arg for x in ast.walk(fn) if isinstance(x, ast.arguments) for a in x.args + x.kwonlyargs + x.posonlyargs + ([x.vararg] if x.vararg else []) + ([x.kwarg] if x.kwarg else [])}
+    scoped = {nm for x in ast.walk(fn) if isinstance(x, (ast.Global, ast.Nonlocal)) for nm in x.names}
+    sites: List[Tuple[List[ast.stmt], Optional[ast.AST]]] = [(fn.body, None)]
+    for node in ast.walk(fn):
+        if isinstance(node, (ast.For, ast.While)) and id(node) in pos and not guarded.get(id(node), True):
+            sites.append((node.body, node))
+    for block, loop in sites:
+        for bi, st in enumerate(block):
+            if not (isinstance(st, ast.Assign) and len(st.targets) == 1 and isinstance(st.targets[0], ast.Name) and isinstance(st.value, ast.Name)):
+                continue
+            x, y = st.targets[0].id, st.value.id
+            if x == y or x in pinned or x in args or x in scoped or y in scoped:
+                continue
+            i1 = pos[id(st)]
+            if any(n.id == x and i < i1 for n, i in names):
+                continue
+            if any(n.id == y and i > i1 for n, i in names):
+                continue
+            if loop is not None:
+                lo = pos[id(loop)]
+                inside = [(n, i) for n, i in names if n.id == y and lo < i < i1]
+                if not inside:
+                    continue
+                first = min(i for _n, i in inside)
+                if order[first] not in block or any(not isinstance(n.ctx, ast.Store) for n, i in inside if i == first):
+                    continue
+                if isinstance(loop, ast.For) and any(isinstance(n, ast.Name) and n.id == y for n in ast.walk(loop.iter)):
+                    continue
+            for n, _i in names:
+                if n.id == x:
+                    n.id = y
+            block.pop(bi)
+            return True
+    return False
+
+
+def coalesce_copies(trees: Dict[str, ast.Module]) -> int:
+    """Copies of a value under a *new* local name are removed from pinned functions: `x = y` where x is bound once and y keeps
+    its value is y itself; `x = y; ...; y = x` with y untouched in between (what inlining a helper that updates its parameter
+    leaves behind) is y all along.  Pinned names are never replaced."""
+    sigs = load_baseline_sigs()
+    if not sigs:
+        return 0
+    n = 0
+    for m, tree in trees.items():
+        fns: List[Tuple[str, ast.FunctionDef]] = []
+        for st in tree.body:
+            if isinstance(st, ast.FunctionDef):
+                fns.append((f"{m}.{st.name}", st))
+            elif isinstance(st, ast.ClassDef):
+                for x in st.body:
+                    if isinstance(x, ast.FunctionDef) and not any(isinstance(d, ast.Attribute) and d.attr in ("setter", "deleter") for d in x.decorator_list):
+                        fns.append((f"{m}.{st.name}.{x.name}", x))
+        for q, fn in fns:
+            if q not in sigs:
+                continue
+            pinned = set(sigs[q]) | set(sigs.get("locals:" + q, []))
+            for block in list(_blocks_of(fn)):
+                for bi in range(len(block) - 1, -1, -1):
+                    st = block[bi]
+                    if isinstance(st, ast.Assign) and len(st.targets) == 1 and isinstance(st.targets[0], ast.Tuple) and isinstance(st.value, ast.Tuple) \
+                            and len(st.targets[0].elts) == len(st.value.elts) and all(isinstance(e, ast.Name) for e in st.targets[0].elts + st.value.elts):
+                        ts, vs = [e.id for e in st.targets[0].elts], [e.id for e in st.value.elts]
+                        if any(ts[i] in vs[i + 1:] for i in range(len(ts))) or not any(t not in pinned for t in ts):
+                            continue
+                        # `a, b = (a, v)`: plain copies, no target is read by a later right-hand side
+                        block[bi:bi + 1] = [ast.copy_location(ast.Assign(targets=[ast.Name(id=t, ctx=ast.Store())], value=ast.Name(id=v, ctx=ast.Load())), st)
+                                            for t, v in zip(ts, vs) if t != v]
+                        ast.fix_missing_locations(fn)
+            for _ in range(40):
+                if not (_copy_once(fn, pinned) or _takeover_once(fn, pinned)):
+                    break
+                n += 1
+    return n
+
+
+# ------------------------------------------------------------------------------------------------ positional call form
+def positionalise_calls(trees: Dict[str, ast.Module]) -> int:
+    """A call of a (uniquely named) package function that passes by keyword a parameter which every call site of the pinned tree
+    passes by position is put in the pinned form: `f(records=r, settings=s)` is `f(r, s)`.  Only leading parameters, only when the
+    callee's parameter list is the pinned one; argument evaluation order is immaterial to the analysis."""
+    base = load_baseline()
+    want: Dict[str, Tuple[str, int]] = {}
+    for b in base:
+        if b.startswith("pos:") and "=" in b:
+            q, k = b[4:].rsplit("=", 1)
+            want[q.split(".")[-1]] = (q, int(k))
+    if not want:
+        return 0
+    sigs = load_baseline_sigs()
+    params: Dict[str, List[str]] = {}
+    for m, tree in trees.items():
+        for st in tree.body:
+            cands = []
+            if isinstance(st, ast.FunctionDef):
+                cands.append((f"{m}.{st.name}", st, False))
+            elif isinstance(st, ast.ClassDef):
+                for x in st.body:
+                    if isinstance(x, ast.FunctionDef):
+                        static = any(isinstance(d, ast.Name) and d.id == "staticmethod" for d in x.decorator_list)
+                        cands.append((f"{m}.{st.name}.{x.name}", x, not static))
+            for q, fn, bound in cands:
+                if fn.name in want and want[fn.name][0] == q and not fn.args.posonlyargs:
+                    ps = [a.arg for a in fn.args.args]
+                    if sigs.get(q) is not None and sigs[q][:len(ps)] != ps:
+                        continue
+                    params[fn.name] = ps[1:] if bound else ps
+    n = 0
+    for tree in trees.values():
+        for c in ast.walk(tree):
+            if not isinstance(c, ast.Call):
+                continue
+            nm = c.func.id if isinstance(c.func, ast.Name) else c.func.attr if isinstance(c.func, ast.Attribute) else None
+            if nm not in params:
+                continue
+            k = want[nm][1]
+            ps = params[nm]
+            have = len(c.args)
+            if have >= k or k > len(ps) or any(isinstance(a, ast.Starred) for a in c.args) or any(kw.arg is None for kw in c.keywords):
+                continue
+            kws = {kw.arg: kw for kw in c.keywords}
+            need = ps[have:k]
+            if not all(p in kws for p in need) or any(p in kws for p in ps[:have]):
+                continue
+            c.args = list(c.args) + [kws[p].value for p in need]
+            c.keywords = [kw for kw in c.keywords if kw.arg not in need]
+            n += 1
+    return n
